@@ -1490,6 +1490,40 @@ def correspondence(ctx):
                     if lt[a][b] and lt[b][c] and not lt[a][c]:
                         ctx.fail("Metadata.__lt__ not transitive", {"metas": [w_meta(ms[x]) for x in (a, b, c)]})
 
+    # (ii-b) Metadata.__lt__ is PARTIAL: the same detail key with values of different kinds raises TypeError (the
+    # constructor: TriangleError). Model: Metadata.cmp? (Model/AllOpsOrder.lean) + the domain predicates the scoped
+    # theorems use (detailKindsComparable / cellsComparable).
+    n_partial = 400 if ctx.thorough else 90
+    partial_cases = []
+    import dataclasses as _dc
+    for i in range(n_partial):
+        ms = gen.rand_metas(rng, rng.randrange(2, 5), single_attr=rng.random() < 0.6)
+        out_ms = []
+        for m in ms:
+            if rng.random() < 0.6:
+                which = rng.choice(["details", "loss_details"])
+                d = dict(getattr(m, which))
+                k_ = rng.choice(sorted(d) + ["k", "zz"]) if d else rng.choice(["k", "zz"])
+                d[k_] = rng.choice([1, 2.5, "a", "b", None, True, datetime.date(2020, 1, 1), datetime.date(2021, 5, 5), 0, ""])
+                m = _dc.replace(m, **{which: d})
+            out_ms.append(m)
+        ms = out_ms
+
+        def lt3(a, b):
+            try:
+                return "lt" if a < b else ("gt" if b < a else "eq")
+            except TypeError:
+                return "TypeError"
+        impl_cmp = [[lt3(a, b) for b in ms] for a in ms]
+        cells_ = [__import__("bermuda").Cell(datetime.date(2020, 1, 1), datetime.date(2020, 12, 31),
+                                             datetime.date(2020, 12, 31), {}, m) for m in ms]
+        st_c, r_c = call(Triangle, cells_)
+        partial_cases.append((ms, impl_cmp, st_c, r_c))
+        reqs.append({"op": "ltPartial", "metas": [w_meta(m) for m in ms]})
+        ctx.case(digest=json.dumps(["ltPartial", [w_meta(m) for m in ms]], sort_keys=True), sample=None)
+        ctx.count("ltPartial/raises" if any("TypeError" in row for row in impl_cmp) else "ltPartial/total")
+    n_meta_end = len(reqs)
+
     # (iii) chains of operations
     chain_cases = []
     for i in range(n_chain):
@@ -1807,6 +1841,18 @@ def correspondence(ctx):
         if out["lt"] != lt:
             ctx.disagree("Metadata.__lt__ matrix", {"metas": [w_meta(m) for m in ms]}, out["lt"], lt)
     k += len(meta_cases)
+    for (ms, impl_cmp, st_c, r_c), out in zip(partial_cases, outs[k:k + len(partial_cases)]):
+        case = {"metas": [w_meta(m) for m in ms]}
+        if out["cmp"] != impl_cmp:
+            ctx.disagree("Metadata.__lt__ (partial: value or TypeError) for every ordered pair", case, out["cmp"], impl_cmp)
+        for a in range(len(ms)):
+            for b in range(len(ms)):
+                if out["comparable"][a][b] and impl_cmp[a][b] == "TypeError":
+                    ctx.fail("Metadata.__lt__ raises on a pair inside the domain detailKindsComparable", case,
+                             {"a": w_meta(ms[a]), "b": w_meta(ms[b])})
+        if out["cellsComparable"] and st_c != "ok":
+            ctx.fail("Triangle(cells) refuses cells of one class whose metadata are pairwise comparable", case, {"impl": r_c})
+    k += len(partial_cases)
     for (d, wire_ops), req, out in zip(chain_cases, reqs[k:], outs[k:]):
         model, spec = out["model"], out["spec"]
         if spec is not None and not all(spec.values()):
